@@ -38,6 +38,7 @@ import ZygoVerif.Model.Control
 import ZygoVerif.Generated.Control
 import ZygoVerif.Generated.ErrDiscard
 import ZygoVerif.Proofs.ContainSusp
+import ZygoVerif.Proofs.MapErr
 import ZygoVerif.Props.C04Err
 namespace ZygoVerif.Control
 
@@ -404,5 +405,32 @@ theorem vm_text_no_panic_generated (fuel : Nat) (es : List Expr) (s s' : St) (v 
 
 /-- non-vacuity: the fresh interpreter is such a state -/
 example : C04.ServedStateE initSt := C04.ServedStateE.init
+
+/-! ### "errors are never swallowed into a successful result": `map` over a list
+
+`MapList` and `MapArray` are two separate loops in zygo/listutils.go and arrayutils.go; the model
+has one function for each (`mapList`, `mapArr`), compared with the code by the `contain` channel
+(since mutation round 4 on lists as well as arrays: seeded/C05-m4 turned `MapList` into a loop whose
+`break` dropped the callback's error for the 2nd and later elements). On the model, from every
+state, for every callback and every fuel: -/
+
+/-- the callback failing on the head element is the outcome of the whole `map`, state included -/
+theorem map_list_head_error_is_outcome (n : Nat) (f a b : Val) (s s1 : St) (e : Fault)
+    (h : (applyFn n f [a]).run.run s = (.error e, s1)) :
+    (mapList (n+1) f (.pair a b)).run.run s = (.error e, s1) := mapList_head_error n f a b s s1 e h
+
+/-- … and so is a failure on any later element: it travels outwards through every earlier,
+successful element unchanged -/
+theorem map_list_later_error_is_outcome (n : Nat) (f a b : Val) (s s1 s2 : St) (v : Val) (e : Fault)
+    (h : (applyFn n f [a]).run.run s = (.ok v, s1))
+    (ht : (mapList n f b).run.run s1 = (.error e, s2)) :
+    (mapList (n+1) f (.pair a b)).run.run s = (.error e, s2) := mapList_tail_error n f a b s s1 s2 v e h ht
+
+/-- a `map` that returned a value had its callback return a value on the head, and the rest of the
+list mapped to a value — by induction, on every element -/
+theorem map_list_value_means_no_error (n : Nat) (f a b r : Val) (s s' : St)
+    (h : (mapList (n+1) f (.pair a b)).run.run s = (.ok r, s')) :
+    ∃ v s1 t, (applyFn n f [a]).run.run s = (.ok v, s1) ∧ (mapList n f b).run.run s1 = (.ok t, s') ∧ r = .pair v t :=
+  mapList_ok_inv n f a b r s s' h
 
 end ZygoVerif.C05
